@@ -298,4 +298,599 @@ theorem step_addresses_core (H : Hash) (t : Ty) (v : Val) (n : Node) (k : Key) (
             exact ⟨_, getter_two _ _, reprOpt_get hr _ ht⟩
       · simp at hs
 
+/-- ONE STEP: in a tree representing `v : t`, the node at the static index of key `k` represents the
+    sub-value addressed by `k` (element, field, selected union option, length, selector). -/
+theorem step_addresses (H : Hash) (t : Ty) (v : Val) (n : Node) (k : Key) (g : Nat)
+    (t' : Ty) (v' : Val) (hr : Impl.Repr H t v n) (hwf : t.wf = true) (hlim : limitsOk t = true)
+    (hg : keyToStaticGindex t k = some g) (hu : unpackedKey t k = true)
+    (hs : subVal t v k = some (some t', v')) :
+    ∃ m, getter n g = some m ∧ Impl.Repr H t' v' m :=
+  step_addresses_core H t v n k g t' v' hr hwf (fun _ => hlim) hg hu hs
+
+/-- element / field / option keys need no bound on the limits -/
+theorem step_addresses_idx (H : Hash) (t : Ty) (v : Val) (n : Node) (i g : Nat)
+    (t' : Ty) (v' : Val) (hr : Impl.Repr H t v n) (hwf : t.wf = true)
+    (hg : keyToStaticGindex t (.idx i) = some g) (hu : unpackedKey t (.idx i) = true)
+    (hs : subVal t v (.idx i) = some (some t', v')) :
+    ∃ m, getter n g = some m ∧ Impl.Repr H t' v' m :=
+  step_addresses_core H t v n (.idx i) g t' v' hr hwf (fun h => by cases h) hg hu hs
+
+/-- `'__selector__'` needs no bound either (a well-formed union has at most 128 options) -/
+theorem step_addresses_sel (H : Hash) (t : Ty) (v : Val) (n : Node) (g : Nat)
+    (t' : Ty) (v' : Val) (hr : Impl.Repr H t v n) (hwf : t.wf = true)
+    (hg : keyToStaticGindex t .sel = some g) (hs : subVal t v .sel = some (some t', v')) :
+    ∃ m, getter n g = some m ∧ Impl.Repr H t' v' m :=
+  step_addresses_core H t v n .sel g t' v' hr hwf (fun h => by cases h) hg
+    (by cases t <;> rfl) hs
+
+/-- the node at the index has the hash-tree-root of the addressed sub-value -/
+theorem step_addresses_root (H : Hash) (t : Ty) (v : Val) (n : Node) (k : Key) (g : Nat)
+    (t' : Ty) (v' : Val) (hr : Impl.Repr H t v n) (hwf : t.wf = true) (hlim : limitsOk t = true)
+    (hg : keyToStaticGindex t k = some g) (hu : unpackedKey t k = true)
+    (hs : subVal t v k = some (some t', v')) (hwf' : t'.wf = true) :
+    ∃ m, getter n g = some m ∧ m.root H = Spec.htr H t' v' := by
+  obtain ⟨m, hm, hrm⟩ := step_addresses H t v n k g t' v' hr hwf hlim hg hu hs
+  exact ⟨m, hm, repr_root H t' v' m hwf' hrm⟩
+
+/-- `'__len__'` / `'__selector__'`, without any bound: the node at index 3 is the 32-byte
+    little-endian leaf of the length / selector -/
+theorem len_sel_addresses (H : Hash) (t : Ty) (v : Val) (n : Node) (k : Key) (x : Nat)
+    (hr : Impl.Repr H t v n) (hk : k = .len ∨ k = .sel)
+    (hs : subVal t v k = some (some (.uint 32), .num x)) :
+    keyToStaticGindex t k = some 3 ∧ getter n 3 = some (lenNode x) := by
+  rcases hk with rfl | rfl
+  · cases t <;> cases v <;> simp [subVal] at hs <;> subst hs <;> simp only [Impl.Repr] at hr
+    · obtain ⟨_, c, rfl, _⟩ := hr
+      exact ⟨rfl, getter_three _ _⟩
+    · obtain ⟨_, c, rfl, _⟩ := hr
+      exact ⟨rfl, getter_three _ _⟩
+  · cases t <;> cases v <;> simp [subVal] at hs
+    subst hs
+    simp only [Impl.Repr] at hr
+    obtain ⟨_, c, rfl, _⟩ := hr
+    exact ⟨rfl, getter_three _ _⟩
+
+/-- the `None` option of a union: the node at index 2 is the zero chunk -/
+theorem none_option_addresses (H : Hash) (t : Ty) (v : Val) (n : Node) (i : Nat) (v' : Val)
+    (hr : Impl.Repr H t v n) (hs : subVal t v (.idx i) = some (none, v')) :
+    keyToStaticGindex t (.idx i) = some 2 ∧ getter n 2 = some (zeroNode H 0) ∧ v' = .none := by
+  cases t <;> cases v <;> try (simp [subVal] at hs; done)
+  · rename_i fs vs
+    simp only [subVal] at hs
+    cases hfi : fs[i]? <;> cases hvi : vs[i]? <;> simp [hfi, hvi] at hs
+  rename_i hasNone opts sel x
+  simp [subVal] at hs
+  obtain ⟨rfl, ht, rfl⟩ := hs
+  simp only [Impl.Repr] at hr
+  obtain ⟨hsel, c, rfl, hr⟩ := hr
+  have hg : keyToStaticGindex (.union hasNone opts) (.idx i) = some 2 := by
+    simp only [keyToStaticGindex]; rw [if_neg (by omega)]
+  refine ⟨hg, ?_⟩
+  by_cases hc : (hasNone && i == 0) = true
+  · simp only [hc, if_true] at hr
+    obtain ⟨rfl, rfl⟩ := hr
+    exact ⟨getter_two _ _, rfl⟩
+  · exfalso
+    simp only [optType, hc, Bool.false_eq_true, if_false] at ht
+    have hlt : optIndex hasNone i < opts.length := by
+      simp only [Bool.and_eq_true, beq_iff_eq, not_and] at hc
+      unfold optCount at hsel; unfold optIndex
+      cases hasNone <;> simp at hc hsel ⊢ <;> omega
+    rw [List.getElem?_eq_getElem hlt] at ht
+    cases ht
+
+/-! ## 3. keys of the value are keys of the type -/
+
+/-- a found list element: the index is below the length -/
+theorem map_getElem?_eq_some {α β} {l : List α} {i : Nat} {f : α → β} {y : β}
+    (h : (l[i]?).map f = some y) : ∃ hi : i < l.length, f l[i] = y := by
+  rw [Option.map_eq_some_iff] at h
+  obtain ⟨a, ha, hf⟩ := h
+  obtain ⟨hi, rfl⟩ := List.getElem?_eq_some_iff.1 ha
+  exact ⟨hi, hf⟩
+
+theorem WTopt_lt : ∀ {opts : List Ty} {k : Nat} {v : Val}, WTopt opts k v = true → k < opts.length
+  | [], _, _, h => by simp [WTopt] at h
+  | _ :: _, 0, _, _ => by simp
+  | _ :: ts, k + 1, _, h => by
+    simp only [WTopt] at h
+    have := WTopt_lt (opts := ts) h
+    simpa using this
+
+theorem subVal_navigateType (t : Ty) (v : Val) (k : Key) (ot' : Option Ty) (v' : Val)
+    (hwt : WT t v = true) (hs : subVal t v k = some (ot', v')) : navigateType t k = some ot' := by
+  cases t with
+  | uint nb => cases v <;> cases k <;> simp [subVal] at hs
+  | bool => cases v <;> cases k <;> simp [subVal] at hs
+  | bitvector len =>
+    cases v <;> cases k <;> simp only [subVal, reduceCtorEq] at hs
+    obtain ⟨hi, he⟩ := map_getElem?_eq_some hs
+    simp [WT] at hwt
+    simp only [Prod.mk.injEq] at he
+    simp only [navigateType]; rw [if_neg (by omega), he.1]
+  | bytevector len =>
+    cases v <;> cases k <;> simp only [subVal, reduceCtorEq] at hs
+    obtain ⟨hi, he⟩ := map_getElem?_eq_some hs
+    simp [WT] at hwt
+    simp only [Prod.mk.injEq] at he
+    simp only [navigateType]; rw [if_neg (by omega), he.1]
+  | bitlist lim =>
+    cases v <;> cases k <;> simp only [subVal, reduceCtorEq] at hs
+    · obtain ⟨hi, he⟩ := map_getElem?_eq_some hs
+      simp [WT] at hwt
+      simp only [Prod.mk.injEq] at he
+      simp only [navigateType]; rw [if_neg (by omega), he.1]
+    · simp only [Option.some.injEq, Prod.mk.injEq] at hs
+      rw [← hs.1]; rfl
+  | bytelist lim =>
+    cases v <;> cases k <;> simp only [subVal, reduceCtorEq] at hs
+    obtain ⟨hi, he⟩ := map_getElem?_eq_some hs
+    simp [WT] at hwt
+    simp only [Prod.mk.injEq] at he
+    simp only [navigateType]; rw [if_neg (by omega), he.1]
+  | vector et len =>
+    cases v <;> cases k <;> simp only [subVal, reduceCtorEq] at hs
+    obtain ⟨hi, he⟩ := map_getElem?_eq_some hs
+    simp [WT] at hwt
+    simp only [Prod.mk.injEq] at he
+    simp only [navigateType]; rw [if_neg (by omega), he.1]
+  | list et lim =>
+    cases v <;> cases k <;> simp only [subVal, reduceCtorEq] at hs
+    · obtain ⟨hi, he⟩ := map_getElem?_eq_some hs
+      simp [WT] at hwt
+      simp only [Prod.mk.injEq] at he
+      simp only [navigateType]; rw [if_neg (by omega), he.1]
+    · simp only [Option.some.injEq, Prod.mk.injEq] at hs
+      rw [← hs.1]; rfl
+  | container fs =>
+    cases v <;> cases k <;> simp only [subVal, reduceCtorEq] at hs
+    rename_i vs i
+    cases hfi : fs[i]? with
+    | none => simp [hfi] at hs
+    | some ft =>
+      cases hvi : vs[i]? with
+      | none => simp [hfi, hvi] at hs
+      | some x =>
+        simp [hfi, hvi] at hs
+        simp only [navigateType, hfi, Option.map_some]
+        rw [hs.1]
+  | union hasNone opts =>
+    cases v <;> cases k <;> simp only [subVal, reduceCtorEq] at hs
+    · rename_i sel x i
+      split at hs
+      · next hi =>
+        subst hi
+        simp only [Option.some.injEq, Prod.mk.injEq] at hs
+        have hlt : i < optCount hasNone opts := by
+          simp only [WT] at hwt
+          unfold optCount
+          split at hwt
+          · next hc => simp at hc; simp [hc.1, hc.2]; omega
+          · next hc =>
+            have := WTopt_lt hwt
+            simp only [Bool.and_eq_true, beq_iff_eq, not_and] at hc
+            unfold optIndex at this
+            cases hasNone <;> simp at hc this ⊢ <;> omega
+        simp only [navigateType]; rw [if_neg (by omega), hs.1]
+      · simp at hs
+    · simp only [Option.some.injEq, Prod.mk.injEq] at hs
+      rw [← hs.1]; rfl
+
+/-- the limit bound is inherited along a path -/
+theorem navigateType_limitsOk (t : Ty) (k : Key) (t' : Ty) (hlim : limitsOk t = true)
+    (h : navigateType t k = some (some t')) : limitsOk t' = true := by
+  cases t with
+  | uint nb => cases k <;> simp [navigateType] at h
+  | bool => cases k <;> simp [navigateType] at h
+  | bitvector n =>
+    cases k <;> simp [navigateType] at h
+    obtain ⟨_, rfl⟩ := h; rfl
+  | bitlist lim =>
+    cases k <;> simp [navigateType] at h
+    · obtain ⟨_, rfl⟩ := h; rfl
+    · subst h; rfl
+  | bytevector n =>
+    cases k <;> simp [navigateType] at h
+    obtain ⟨_, rfl⟩ := h; rfl
+  | bytelist lim =>
+    cases k <;> simp [navigateType] at h
+    obtain ⟨_, rfl⟩ := h; rfl
+  | vector et n =>
+    simp only [limitsOk] at hlim
+    cases k <;> simp [navigateType] at h
+    obtain ⟨_, rfl⟩ := h; exact hlim
+  | list et lim =>
+    simp [limitsOk] at hlim
+    cases k <;> simp [navigateType] at h
+    · obtain ⟨_, rfl⟩ := h; exact hlim.2
+    · subst h; rfl
+  | container fs =>
+    simp only [limitsOk] at hlim
+    cases k <;> simp [navigateType] at h
+    exact limitsOkList_getElem? fs hlim _ _ h
+  | union hasNone opts =>
+    simp only [limitsOk] at hlim
+    cases k <;> simp [navigateType] at h
+    · obtain ⟨_, h⟩ := h
+      unfold Spec.optType at h
+      split at h
+      · simp at h
+      · exact limitsOkList_getElem? opts hlim _ _ h
+    · subst h; rfl
+
+/-- a key accepted by `navigate_type` has a static index (for a well-formed type) -/
+theorem static_exists (t : Ty) (k : Key) (ot : Option Ty) (hwf : t.wf = true)
+    (hn : navigateType t k = some ot) : ∃ g, keyToStaticGindex t k = some g := by
+  have hspec : Spec.gindexStep 1 t k ≠ none := by
+    cases t <;> cases k <;> simp only [navigateType, reduceCtorEq] at hn <;>
+      simp only [Spec.gindexStep] <;>
+      first
+      | (split at hn
+         · simp at hn
+         · simp; omega)
+      | (rename_i fs i
+         cases hfi : fs[i]? with
+         | none => simp [hfi] at hn
+         | some ft => simp)
+      | simp
+  rw [← implStep_eq_spec 1 t k hwf] at hspec
+  unfold implStep at hspec
+  rw [hn] at hspec
+  cases hg : keyToStaticGindex t k with
+  | none => simp [hg] at hspec
+  | some g => exact ⟨g, rfl⟩
+
+/-! ## 4. whole paths -/
+
+/-- first key of a path: everything the induction needs -/
+theorem first_step (H : Hash) (t : Ty) (v : Val) (n : Node) (k : Key) (t' : Ty) (v' : Val)
+    (hr : Impl.Repr H t v n) (hwf : t.wf = true) (hlim : limitsOk t = true)
+    (hu : unpackedKey t k = true) (hs : subVal t v k = some (some t', v')) :
+    ∃ g m, keyToStaticGindex t k = some g ∧ g ≠ 0 ∧ getter n g = some m ∧ Impl.Repr H t' v' m ∧
+      t'.wf = true ∧ limitsOk t' = true ∧
+      ∀ (root : Nat) (ks : List Key),
+        implGindex root (some t) (k :: ks) = implGindex (concatStep root g) (some t') ks := by
+  have hn := subVal_navigateType t v k (some t') v' (repr_wt H t v n hr) hs
+  obtain ⟨g, hg⟩ := static_exists t k (some t') hwf hn
+  obtain ⟨m, hm, hrm⟩ := step_addresses H t v n k g t' v' hr hwf hlim hg hu hs
+  refine ⟨g, m, hg, keyToStaticGindex_ne_zero t k g hg, hm, hrm, navigateType_wf t k t' hwf hn,
+    navigateType_limitsOk t k t' hlim hn, ?_⟩
+  intro root ks
+  rw [implGindex_cons]
+  simp only [implStep, hn, hg]
+
+/-- WHOLE PATHS, general form (running index `root` inside an enclosing tree `n0`).
+    The last clause says that the index of any longer path continues from here. -/
+theorem path_addresses_gen (H : Hash) (keys : List Key) :
+    ∀ (t : Ty) (v : Val) (n : Node) (root : Nat) (n0 : Node) (t' : Ty) (v' : Val),
+      Impl.Repr H t v n → t.wf = true → limitsOk t = true →
+      subValPath (some t) v keys = some (some t', v') →
+      root ≠ 0 → getter n0 root = some n →
+      ∃ g m, implGindex root (some t) keys = some g ∧ g ≠ 0 ∧ getter n0 g = some m ∧
+        Impl.Repr H t' v' m ∧ t'.wf = true ∧ limitsOk t' = true ∧
+        ∀ ks2, implGindex root (some t) (keys ++ ks2) = implGindex g (some t') ks2 := by
+  induction keys with
+  | nil =>
+    intro t v n root n0 t' v' hr hwf hlim hp hroot hget
+    simp only [subValPath, Option.some.injEq, Prod.mk.injEq] at hp
+    obtain ⟨rfl, rfl⟩ := hp
+    exact ⟨root, n, implGindex_nil _ _, hroot, hget, hr, hwf, hlim, fun ks2 => rfl⟩
+  | cons k ks ih =>
+    intro t v n root n0 t' v' hr hwf hlim hp hroot hget
+    simp only [subValPath] at hp
+    split at hp
+    · next hu =>
+      split at hp
+      · simp at hp
+      · next ot1 v1 hs =>
+        cases ot1 with
+        | none => cases ks <;> simp [subValPath] at hp
+        | some t1 =>
+          obtain ⟨g1, m1, hg1, hg1ne, hm1, hrm1, hwf1, hlim1, hcons⟩ :=
+            first_step H t v n k t1 v1 hr hwf hlim hu hs
+          have hget1 : getter n0 (concatStep root g1) = some m1 := by
+            rw [getter_concatStep n0 hroot hg1ne, hget]; exact hm1
+          obtain ⟨g, m, hg, hgne, hm, hrm, hwf', hlim', hext⟩ :=
+            ih t1 v1 m1 (concatStep root g1) n0 t' v' hrm1 hwf1 hlim1 hp
+              (concatStep_ne_zero hroot) hget1
+          refine ⟨g, m, ?_, hgne, hm, hrm, hwf', hlim', ?_⟩
+          · rw [hcons]; exact hg
+          · intro ks2
+            rw [List.cons_append, hcons]; exact hext ks2
+    · simp at hp
+
+/-- WHOLE PATHS: if `n` represents `v : t` and the key path is valid for the VALUE and stays in
+    unpacked positions, ending at sub-value `v' : t'`, then the library's static path index exists
+    and the node found there represents `v'`; in particular it has the hash-tree-root of `v'`. -/
+theorem path_addresses (H : Hash) (t : Ty) (v : Val) (n : Node) (keys : List Key) (t' : Ty)
+    (v' : Val) (hr : Impl.Repr H t v n) (hwf : t.wf = true) (hlim : limitsOk t = true)
+    (hp : subValPath (some t) v keys = some (some t', v')) :
+    ∃ g m, Impl.pathGindex t keys = some g ∧ getter n g = some m ∧ Impl.Repr H t' v' m ∧
+      m.root H = Spec.htr H t' v' := by
+  obtain ⟨g, m, hg, _, hm, hrm, hwf', _, _⟩ :=
+    path_addresses_gen H keys t v n 1 n t' v' hr hwf hlim hp (by decide) (getter_one n)
+  exact ⟨g, m, by rw [pathGindex_eq_implGindex]; exact hg, hm, hrm, repr_root H t' v' m hwf' hrm⟩
+
+/-- the same index is the SSZ-spec generalized index of the path -/
+theorem path_addresses_spec (H : Hash) (t : Ty) (v : Val) (n : Node) (keys : List Key) (t' : Ty)
+    (v' : Val) (hr : Impl.Repr H t v n) (hwf : t.wf = true) (hlim : limitsOk t = true)
+    (hp : subValPath (some t) v keys = some (some t', v')) :
+    ∃ g m, Spec.gindex 1 (some t) keys = some g ∧ getter n g = some m ∧
+      m.root H = Spec.htr H t' v' := by
+  obtain ⟨g, m, hg, hm, _, hroot⟩ := path_addresses H t v n keys t' v' hr hwf hlim hp
+  exact ⟨g, m, by rw [← pathGindex_eq_spec t keys hwf]; exact hg, hm, hroot⟩
+
+/-! ## 5. packed positions: the node at the index is the leaf chunk holding the element -/
+
+/-- reading a chunk of a chunk tree of leaves -/
+theorem ct_leaf_get {H : Hash} {d : Nat} {cs : List Chunk} {n : Node}
+    (hct : ChunkTree H d (cs.map .leaf) n) {j : Nat} (hj : j < cs.length) :
+    getAt n j d = some (.leaf cs[j]) ∧ j < 2 ^ d := by
+  have hj' : j < (cs.map Node.leaf).length := by simpa using hj
+  have hle := ct_length_le hct
+  refine ⟨?_, by omega⟩
+  rw [ct_get hct hj', List.getElem_map]
+
+theorem ct_leaf_get_mixin {H : Hash} {d : Nat} {cs : List Chunk} {c : Node} (l : Nat)
+    (hct : ChunkTree H d (cs.map .leaf) c) {j : Nat} (hj : j < cs.length) :
+    getAt (mixInNode c l) j (d + 1) = some (.leaf cs[j]) := by
+  obtain ⟨h1, h2⟩ := ct_leaf_get hct hj
+  rw [mixInNode, getAt_mixin _ _ h2, h1]
+
+/-- PACKED POSITIONS, one step: for a sequence of basic elements, a bitfield or a byte array, the
+    node at the static index of element `i` is the leaf chunk number `i / per` of the packed
+    contents (`per` = elements per chunk: `32 / size`, 256 bits, 32 bytes). -/
+theorem packed_addresses (H : Hash) (t : Ty) (v : Val) (n : Node) (i g : Nat) (cs : List Chunk)
+    (per : Nat) (hr : Impl.Repr H t v n) (hwf : t.wf = true)
+    (hp : packedChunks t v = some (cs, per)) (hi : i < valLen v)
+    (hg : keyToStaticGindex t (.idx i) = some g) :
+    ∃ hj : i / per < cs.length, getter n g = some (.leaf cs[i / per]) := by
+  cases t with
+  | uint nb => cases v <;> simp [packedChunks] at hp
+  | bool => cases v <;> simp [packedChunks] at hp
+  | container fs => cases v <;> simp [packedChunks] at hp
+  | union hasNone opts => cases v <;> simp [packedChunks] at hp
+  | bitvector len =>
+    cases v <;> simp only [packedChunks, reduceCtorEq, Option.some.injEq, Prod.mk.injEq] at hp
+    rename_i bs
+    obtain ⟨rfl, rfl⟩ := hp
+    simp only [valLen] at hi
+    simp only [Impl.Repr] at hr
+    obtain ⟨hlen, hct⟩ := hr
+    have hj : i / 256 < (packBits bs).length := by rw [packBits_length]; omega
+    simp only [keyToStaticGindex, treeDepth, contentsDepth, hasMixIn] at hg
+    split at hg
+    · simp at hg
+    · simp only [Bool.false_eq_true, if_false, Nat.add_zero] at hg
+      exact ⟨hj, by rw [getter_toGindex _ hg]; exact (ct_leaf_get hct hj).1⟩
+  | bitlist lim =>
+    cases v <;> simp only [packedChunks, reduceCtorEq, Option.some.injEq, Prod.mk.injEq] at hp
+    rename_i bs
+    obtain ⟨rfl, rfl⟩ := hp
+    simp only [valLen] at hi
+    simp only [Impl.Repr] at hr
+    obtain ⟨hlen, c, rfl, hct⟩ := hr
+    have hj : i / 256 < (packBits bs).length := by rw [packBits_length]; omega
+    simp only [keyToStaticGindex, treeDepth, contentsDepth, hasMixIn] at hg
+    split at hg
+    · simp at hg
+    · simp only [if_true] at hg
+      exact ⟨hj, by rw [getter_toGindex _ hg]; exact ct_leaf_get_mixin _ hct hj⟩
+  | bytevector len =>
+    cases v <;> simp only [packedChunks, reduceCtorEq, Option.some.injEq, Prod.mk.injEq] at hp
+    rename_i bs
+    obtain ⟨rfl, rfl⟩ := hp
+    simp only [valLen] at hi
+    simp only [Impl.Repr] at hr
+    obtain ⟨hlen, hct⟩ := hr
+    have hj : i / 32 < (packBytes bs).length := by rw [ConstructRoot.packBytes_length]; omega
+    simp only [keyToStaticGindex, treeDepth, contentsDepth, hasMixIn] at hg
+    split at hg
+    · simp at hg
+    · simp only [Bool.false_eq_true, if_false, Nat.add_zero] at hg
+      exact ⟨hj, by rw [getter_toGindex _ hg]; exact (ct_leaf_get hct hj).1⟩
+  | bytelist lim =>
+    cases v <;> simp only [packedChunks, reduceCtorEq, Option.some.injEq, Prod.mk.injEq] at hp
+    rename_i bs
+    obtain ⟨rfl, rfl⟩ := hp
+    simp only [valLen] at hi
+    simp only [Impl.Repr] at hr
+    obtain ⟨hlen, c, rfl, hct⟩ := hr
+    have hj : i / 32 < (packBytes bs).length := by rw [ConstructRoot.packBytes_length]; omega
+    simp only [keyToStaticGindex, treeDepth, contentsDepth, hasMixIn] at hg
+    split at hg
+    · simp at hg
+    · simp only [if_true] at hg
+      exact ⟨hj, by rw [getter_toGindex _ hg]; exact ct_leaf_get_mixin _ hct hj⟩
+  | vector et len =>
+    cases v <;> simp only [packedChunks, reduceCtorEq] at hp
+    rename_i vs
+    split at hp
+    · next hb =>
+      simp only [Option.some.injEq, Prod.mk.injEq] at hp
+      obtain ⟨rfl, rfl⟩ := hp
+      simp only [valLen] at hi
+      simp [Ty.wf] at hwf
+      simp only [Impl.Repr, hb, if_true] at hr
+      obtain ⟨hlen, _, hct⟩ := hr
+      have hj : i / (32 / et.basicSize) < (packInts et.basicSize (vs.map numOf)).length := by
+        rw [packInts_length' et hwf.2 hb, List.length_map]
+        exact (DefaultNode.packed_chunk_lt et hwf.2 hb vs.length i hi).1
+      simp only [keyToStaticGindex, hb, if_true, treeDepth, contentsDepth, hasMixIn] at hg
+      split at hg
+      · simp at hg
+      · simp only [Bool.false_eq_true, if_false, Nat.add_zero] at hg
+        exact ⟨hj, by rw [getter_toGindex _ hg]; exact (ct_leaf_get hct hj).1⟩
+    · simp at hp
+  | list et lim =>
+    cases v <;> simp only [packedChunks, reduceCtorEq] at hp
+    rename_i vs
+    split at hp
+    · next hb =>
+      simp only [Option.some.injEq, Prod.mk.injEq] at hp
+      obtain ⟨rfl, rfl⟩ := hp
+      simp only [valLen] at hi
+      simp [Ty.wf] at hwf
+      simp only [Impl.Repr, hb, if_true] at hr
+      obtain ⟨hlen, c, rfl, _, hct⟩ := hr
+      have hj : i / (32 / et.basicSize) < (packInts et.basicSize (vs.map numOf)).length := by
+        rw [packInts_length' et hwf hb, List.length_map]
+        exact (DefaultNode.packed_chunk_lt et hwf hb vs.length i hi).1
+      simp only [keyToStaticGindex, hb, if_true, treeDepth, contentsDepth, hasMixIn] at hg
+      split at hg
+      · simp at hg
+      · exact ⟨hj, by rw [getter_toGindex _ hg]; exact ct_leaf_get_mixin _ hct hj⟩
+    · simp at hp
+
+/-! ### the element can be read from that chunk -/
+
+/-- byte `i` of a byte array sits at offset `i % 32` of chunk `i / 32` -/
+theorem packBytes_getElem (bs : List UInt8) (i : Nat) (hi : i < bs.length)
+    (hj : i / 32 < (packBytes bs).length) :
+    ((packBytes bs)[i / 32])[i % 32]? = some bs[i] := by
+  have key : ∀ (cs : List Chunk) (_ : cs = bytesToChunks bs) (hj : i / 32 < cs.length),
+      cs[i / 32] = padRight ((bs.drop (32 * (i / 32))).take 32) 32 := by
+    intro cs h hj
+    subst h
+    simp only [bytesToChunks, List.getElem_map]
+    rw [groups_getElem (by decide : 0 < 32)]
+  rw [key (packBytes bs) (ConstructRoot.packBytes_eq_pack bs) hj, padRight]
+  have hk : i % 32 < ((bs.drop (32 * (i / 32))).take 32).length := by
+    simp only [List.length_take, List.length_drop]; omega
+  rw [List.getElem?_append_left hk, List.getElem?_eq_getElem hk, List.getElem_take,
+    List.getElem_drop]
+  have e : 32 * (i / 32) + i % 32 = i := by omega
+  simp only [e]
+
+/-- packed basic element `i` is slice `i % per` of chunk `i / per` -/
+theorem packed_elem_seq (H : Hash) (et : Ty) (vs : List Val) (i : Nat) (hwf : et.wf = true)
+    (hb : et.isBasic = true) (hwt : ∀ x ∈ vs, WT et x = true) (hi : i < vs.length)
+    (hj : i / (32 / et.basicSize) < (packInts et.basicSize (vs.map numOf)).length) :
+    readBasicAt H et (.leaf (packInts et.basicSize (vs.map numOf))[i / (32 / et.basicSize)])
+      (i % (32 / et.basicSize)) = some vs[i] := by
+  have hper : 0 < 32 / et.basicSize := by
+    rcases basicSize_cases et hwf hb with h | h | h | h | h | h <;> rw [h] <;> decide
+  apply readBasicAt_slice H et vs[i] hb (hwt _ (List.getElem_mem _))
+  have := packInts_getElem_slice et.basicSize (vs.map numOf) i hper (by simpa using hi) hj
+  simpa using this
+
+/-- bit `i` of a bitfield is bit `i % 256` of chunk `i / 256` -/
+theorem packed_elem_bits (bs : List Bool) (i : Nat) (hi : i < bs.length)
+    (hj : i / 256 < (packBits bs).length) : bitOfChunk ((packBits bs)[i / 256]) i = bs[i] :=
+  bitOfChunk_packBits bs i hi hj
+
+/-- how the views decode element `i` of a packed type from the chunk that holds it
+    (`basic_view_from_backing(chunk, i % per)`, the bit test of `BitsView.get`, byte indexing) -/
+def elemOfChunk (H : Hash) : Ty → Chunk → Nat → Option Val
+  | .list et _, c, i => readBasicAt H et (.leaf c) (i % (32 / et.basicSize))
+  | .vector et _, c, i => readBasicAt H et (.leaf c) (i % (32 / et.basicSize))
+  | .bitlist _, c, i => some (.num (if bitOfChunk c i then 1 else 0))
+  | .bitvector _, c, i => some (.num (if bitOfChunk c i then 1 else 0))
+  | .bytelist _, c, i => (c[i % 32]?).map fun b => .num b.toNat
+  | .bytevector _, c, i => (c[i % 32]?).map fun b => .num b.toNat
+  | _, _, _ => none
+
+/-- an element key of a packed value is below the length -/
+theorem subVal_idx_lt (t : Ty) (v : Val) (i : Nat) (r : Option Ty × Val) (p : List Chunk × Nat)
+    (hp : packedChunks t v = some p) (hs : subVal t v (.idx i) = some r) : i < valLen v := by
+  cases t <;> cases v <;> simp only [packedChunks, reduceCtorEq] at hp <;>
+    simp only [subVal] at hs <;> exact (map_getElem?_eq_some hs).1
+
+/-- PACKED POSITIONS, one step, with the element: the node at the static index of a packed element
+    key is the leaf chunk `cs[i / per]`, and decoding position `i` of that chunk yields exactly the
+    addressed element `subVal t v (.idx i)`. -/
+theorem packed_addresses_elem (H : Hash) (t : Ty) (v : Val) (n : Node) (i g : Nat)
+    (cs : List Chunk) (per : Nat) (ot : Option Ty) (x : Val)
+    (hr : Impl.Repr H t v n) (hwf : t.wf = true)
+    (hp : packedChunks t v = some (cs, per)) (hs : subVal t v (.idx i) = some (ot, x))
+    (hg : keyToStaticGindex t (.idx i) = some g) :
+    ∃ hj : i / per < cs.length, getter n g = some (.leaf cs[i / per]) ∧
+      elemOfChunk H t cs[i / per] i = some x := by
+  have hi := subVal_idx_lt t v i _ _ hp hs
+  obtain ⟨hj, hget⟩ := packed_addresses H t v n i g cs per hr hwf hp hi hg
+  refine ⟨hj, hget, ?_⟩
+  cases t with
+  | uint nb => cases v <;> simp [packedChunks] at hp
+  | bool => cases v <;> simp [packedChunks] at hp
+  | container fs => cases v <;> simp [packedChunks] at hp
+  | union hasNone opts => cases v <;> simp [packedChunks] at hp
+  | bitvector len =>
+    cases v <;> simp only [packedChunks, reduceCtorEq, Option.some.injEq, Prod.mk.injEq] at hp
+    obtain ⟨rfl, rfl⟩ := hp
+    simp only [valLen] at hi
+    simp only [subVal, List.getElem?_eq_getElem hi, Option.map_some, Option.some.injEq,
+      Prod.mk.injEq] at hs
+    simp only [elemOfChunk, bitOfChunk_packBits _ i hi hj, hs.2]
+  | bitlist lim =>
+    cases v <;> simp only [packedChunks, reduceCtorEq, Option.some.injEq, Prod.mk.injEq] at hp
+    obtain ⟨rfl, rfl⟩ := hp
+    simp only [valLen] at hi
+    simp only [subVal, List.getElem?_eq_getElem hi, Option.map_some, Option.some.injEq,
+      Prod.mk.injEq] at hs
+    simp only [elemOfChunk, bitOfChunk_packBits _ i hi hj, hs.2]
+  | bytevector len =>
+    cases v <;> simp only [packedChunks, reduceCtorEq, Option.some.injEq, Prod.mk.injEq] at hp
+    obtain ⟨rfl, rfl⟩ := hp
+    simp only [valLen] at hi
+    simp only [subVal, List.getElem?_eq_getElem hi, Option.map_some, Option.some.injEq,
+      Prod.mk.injEq] at hs
+    simp only [elemOfChunk, packBytes_getElem _ i hi hj, Option.map_some, hs.2]
+  | bytelist lim =>
+    cases v <;> simp only [packedChunks, reduceCtorEq, Option.some.injEq, Prod.mk.injEq] at hp
+    obtain ⟨rfl, rfl⟩ := hp
+    simp only [valLen] at hi
+    simp only [subVal, List.getElem?_eq_getElem hi, Option.map_some, Option.some.injEq,
+      Prod.mk.injEq] at hs
+    simp only [elemOfChunk, packBytes_getElem _ i hi hj, Option.map_some, hs.2]
+  | vector et len =>
+    cases v <;> simp only [packedChunks, reduceCtorEq] at hp
+    rename_i vs
+    split at hp
+    · next hb =>
+      simp only [Option.some.injEq, Prod.mk.injEq] at hp
+      obtain ⟨rfl, rfl⟩ := hp
+      simp only [valLen] at hi
+      simp [Ty.wf] at hwf
+      simp only [Impl.Repr, hb, if_true] at hr
+      simp only [subVal, List.getElem?_eq_getElem hi, Option.map_some, Option.some.injEq,
+        Prod.mk.injEq] at hs
+      simp only [elemOfChunk, packed_elem_seq H et vs i hwf.2 hb hr.2.1 hi hj, hs.2]
+    · simp at hp
+  | list et lim =>
+    cases v <;> simp only [packedChunks, reduceCtorEq] at hp
+    rename_i vs
+    split at hp
+    · next hb =>
+      simp only [Option.some.injEq, Prod.mk.injEq] at hp
+      obtain ⟨rfl, rfl⟩ := hp
+      simp only [valLen] at hi
+      simp [Ty.wf] at hwf
+      simp only [Impl.Repr, hb, if_true] at hr
+      obtain ⟨_, c, _, hwt, _⟩ := hr
+      simp only [subVal, List.getElem?_eq_getElem hi, Option.map_some, Option.some.injEq,
+        Prod.mk.injEq] at hs
+      simp only [elemOfChunk, packed_elem_seq H et vs i hwf hb hwt hi hj, hs.2]
+    · simp at hp
+
+/-- PACKED POSITIONS at the end of a path: an unpacked path to `v' : t'` followed by an element key
+    of the packed value `v'` — the library's static path index exists and the node found there is
+    the leaf chunk holding the element, from which the element is decoded. -/
+theorem path_packed_addresses (H : Hash) (t : Ty) (v : Val) (n : Node) (keys : List Key)
+    (t' : Ty) (v' : Val) (i : Nat) (cs : List Chunk) (per : Nat) (ot : Option Ty) (x : Val)
+    (hr : Impl.Repr H t v n) (hwf : t.wf = true) (hlim : limitsOk t = true)
+    (hpath : subValPath (some t) v keys = some (some t', v'))
+    (hp : packedChunks t' v' = some (cs, per)) (hs : subVal t' v' (.idx i) = some (ot, x)) :
+    ∃ g, ∃ hj : i / per < cs.length, Impl.pathGindex t (keys ++ [.idx i]) = some g ∧
+      getter n g = some (.leaf cs[i / per]) ∧ elemOfChunk H t' cs[i / per] i = some x := by
+  obtain ⟨g0, m, _, hg0ne, hm, hrm, hwf', _, hext⟩ :=
+    path_addresses_gen H keys t v n 1 n t' v' hr hwf hlim hpath (by decide) (getter_one n)
+  have hn := subVal_navigateType t' v' (.idx i) ot x (repr_wt H t' v' m hrm) hs
+  obtain ⟨g', hg'⟩ := static_exists t' (.idx i) ot hwf' hn
+  obtain ⟨hj, hget, helem⟩ := packed_addresses_elem H t' v' m i g' cs per ot x hrm hwf' hp hs hg'
+  refine ⟨concatStep g0 g', hj, ?_, ?_, helem⟩
+  · rw [pathGindex_eq_implGindex, hext, implGindex_cons]
+    simp only [implStep, hn, hg', implGindex_nil]
+  · rw [getter_concatStep n hg0ne (keyToStaticGindex_ne_zero _ _ _ hg'), hm]
+    exact hget
+
 end Rmk.PathAddress
